@@ -7,3 +7,5 @@ func verifGate(kind, id string) {}
 func verifNote(kind string, kv ...interface{}) {}
 
 func verifID(p interface{}) string { return "" }
+
+func verifCount(e *EventSubscription) int64 { return 0 }
